@@ -152,11 +152,20 @@ class FLin(Problem):
     def __init__(self, A):
         self.A = np.atleast_2d(np.asarray(A, dtype=float))
         super().__init__(init=(self.A.shape[0], None, np.dtype('float64')))
+        from pySDC.core.problem import WorkCounter
+
+        self.work_counters['rhs'] = WorkCounter()
 
     def eval_f(self, u, t):
+        self.work_counters['rhs']()
         f = self.dtype_f(self.init)
         f[:] = self.A @ np.asarray(u)
         return f
+
+    def u_exact(self, t):
+        me = self.dtype_u(self.init)
+        me[:] = 1.0
+        return me
 
     def solve_system(self, rhs, factor, u0, t):
         me = self.dtype_u(self.init)
